@@ -478,7 +478,14 @@ func ruleR01_4(c *Check) {
 	readMark := w.Field("badger.oracle.readMark")
 	flag := w.Field("badger.Txn.doneRead")
 	for _, o := range allSites(w, "badger", selCallOn(done, readMark)) {
-		switch o.SiteFn.Name {
+		place := o.SiteFn.Name
+		// a helper that has its only call site in Open / StreamWriter.Flush is part of that place
+		for _, rn := range w.rootsVia(o.SiteFn) {
+			if rn == "badger.Open" || rn == "badger.StreamWriter.Flush" {
+				place = rn
+			}
+		}
+		switch place {
 		case "badger.oracle.doneRead":
 			gs := w.Guards(o.SiteFn, o.Node)
 			g := HasGuard(gs, false, func(e ast.Expr) bool { return w.fieldOf(e) == flag })
